@@ -9,8 +9,8 @@ impl ColumnLoader for NoopStorage {
         _: PartitionID,
         _: &str,
         _: &QueryPerfCounter,
-    ) -> Option<Vec<Column>> {
-        None
+    ) -> Result<Option<Vec<Column>>, QueryError> {
+        Ok(None)
     }
     fn load_column_range(&self, _: PartitionID, _: PartitionID, _: &str, _: &InnerLocustDB) {}
     fn partition_has_been_loaded(&self, _: &str, _: PartitionID, _: &str) -> bool {
